@@ -29,10 +29,16 @@ func verifExtAutomaton(api *rapid.VerifExtAPI, name string, internal bool, L int
 			return
 		}
 		switch verifChoice(8, "extension api call") {
-		case 0: // register for INVOKE
-			st, nid, body := api.Register(name, []string{"INVOKE"})
+		case 0: // register for INVOKE, with or without the accountId feature (and an unknown feature)
+			feat := []string{"", "accountId", "somethingElse, accountId", "somethingElse"}[verifChoice(4, "feature header")]
+			st, nid, body := api.RegisterWithFeatures(name, []string{"INVOKE"}, feat)
 			if api.Dead() {
 				return
+			}
+			if st == 200 && strings.Contains(feat, "accountId") {
+				verifReach("account-id")
+				verifAssert(strings.Contains(body, `"accountId":"123456789012"`), "with the accountId feature the registration data carries the account id the platform was initialised with")
+				body = strings.Replace(body, `"accountId":"123456789012"`, "", 1)
 			}
 			if state == sNone && internal && st == 403 && strings.Contains(body, "Extension.RegistrationClosed") {
 				verifReach("registration-closed")
@@ -168,6 +174,20 @@ func verifInternalScript(L int) {
 	}
 	verifReach("script-done")
 }
+
+// two external extensions, each executing every script of L calls (interleaved)
+func verifTwoExternalScripts(L int) {
+	f := newVerifFull(2, []string{"I", "I"}, nil, 3000)
+	f.w.SetExtScript(func(base string, api *rapid.VerifExtAPI) {
+		verifExtAutomaton(api, base, false, L)
+	})
+	for i := 0; i < 2; i++ {
+		o := f.invoke()
+		verifAssert(o.err == nil || o.err == ErrInvokeTimeout || o.err == ErrInvokeDoneFailed || o.err == ErrInitDoneFailed, "every invocation gets an outcome")
+	}
+	verifReach("script-done")
+}
+func VerifC13TwoExternal2() { verifTwoExternalScripts(2) }
 
 func VerifC13External3() { verifExternalScript(3) }
 func VerifC13External4() { verifExternalScript(4) }
